@@ -226,6 +226,10 @@ class Contract:
     def result(self, c):
         return None
 
+    def havoc_final(self, c):
+        """effects that happen after the last state-dependent (late) exceptional exit"""
+        pass
+
     def ensures(self, c):
         return []
 
@@ -315,6 +319,8 @@ class Contract:
                     assume_clause(I, cl)
                 I.trace.append(("raise", self.qual, typ))
                 raise PyRaise(typ, self.qual)
+        self.havoc_final(c)
+        c.new = I.snapshot()
         for cl in self.hints(c):
             assume_clause(I, cl)
         for cl in self.ensures(c):
@@ -349,6 +355,11 @@ def havoc_loc(I, loc):
             p["dom"] = lambda k, d=d: d(k)
             if p["default"] == "float":
                 I.assume_pw(lambda k, f=f, d=d: z3.Implies(z3.Not(d(k)), f(k) == 0))
+            I.wrote(o.oid, "*")
+        elif o.kind == "rec":
+            for name, cur in list(p.items()):
+                if isinstance(cur, (Fl, In)) or is_symbool(cur) or isinstance(cur, bool):
+                    p[name] = fresh_like(I, cur, "hv_%s" % name)
             I.wrote(o.oid, "*")
         else:
             raise Unsupported("havoc of %r" % (o,))
@@ -454,6 +465,8 @@ def verify(con, registry, opts=None, initial=None):
         specs = raise_specs(exc_specs)
         if outcome == "return":
             for i, (typ, spec) in enumerate(specs):
+                if spec.get("catch_all"):
+                    continue
                 tag = typ if len([1 for t, _ in specs if t == typ]) == 1 else "%s#%d" % (typ, i)
                 I.oblige(pfx + "raises::%s::complete" % tag, z3.Not(_when(spec)),
                          detail="no normally-returning path satisfies the raise condition")
@@ -470,8 +483,22 @@ def verify(con, registry, opts=None, initial=None):
                 I.oblige(pfx + "raises::unexpected[%s]" % typ, FALSE,
                          detail="exception type not listed in `raises` must be unreachable (origin %s)" % c.exc.origin)
             else:
-                I.oblige(pfx + "raises::%s::sound" % typ, z3.Or(*[_when(sp) for _, sp in mine]), detail="origin %s" % c.exc.origin)
-                for i, sp in mine:
+                known = None
+                for _, sp in mine:
+                    for fid, pats in (sp.get("known_origins") or {}).items():
+                        if any(pt in (c.exc.origin or "") for pt in pats):
+                            known = (known or []) + [(fid, TRUE)]
+                goal = z3.Or(*[_when(sp) for _, sp in mine])
+                if known and I.sat_possible(z3.Not(goal)):
+                    # an exceptional exit through a call site recorded as a known finding: reported as such (the bounded
+                    # shell reproduces it on the real code); it is discharged instead if the exit is unreachable
+                    ob = Obligation(pfx + "raises::%s::sound" % typ, "known", "engine(call-site match)+z3 feasibility", 0,
+                                    path=list(I.dec), detail="origin %s; recorded finding(s) %s" % (c.exc.origin, ",".join(f for f, _ in known)))
+                    ob.known_ids = [f for f, _ in known]
+                    I.obls.append(ob)
+                else:
+                    ob = I.oblige(pfx + "raises::%s::sound" % typ, goal, detail="origin %s" % c.exc.origin, known=known)
+                for i, sp in (mine if ob.verdict == "unsat" else []):
                     tag = typ if len(mine) == 1 else "%s#%d" % (typ, i)
                     if len(mine) == 1 or I.branch(_when(sp)):
                         for cl in sp.get("post", []):
